@@ -422,7 +422,9 @@ def _make_fields_iterator(
         public_attribs = [s for s in tp.__slots__ if not s.startswith("_")]
     # If we located all public attributes, create a factory function for iterating over
     #   these fields and fetching the value from an instance.
-    if public_attribs:
+    #   (A dataclass has exactly its declared fields, even if none of them is public:
+    #   a slotted one has no `__dict__` to fall back on.)
+    if public_attribs or dataclasses.is_dataclass(tp):
 
         def _iterfields(val: t.Any) -> t.Iterator[tuple[str, t.Any]]:
             return ((a, getattr(val, a)) for a in public_attribs)
